@@ -155,10 +155,12 @@ class _Renamed:
 _ABSENT = object()
 
 
-def parse_model(it, cls, wire, markers, node=None):
+def parse_model(it, cls, wire, markers, node=None, ignore_critical=False):
     """summary of cls.parse(wire, markers): may raise a documented decoding error, else a LazyParsed instance;
     marker side effects of the shipped packet classes are reproduced symbolically"""
     run = it.run
+    # under which critical-bit rule the caller asked for this (top-level) parse: the contracts of the packet decoders oblige it
+    run.ghost.setdefault('parse.rule', []).append((cls, ignore_critical))
     ov = run.ghost.get('parse_override', {}).get(cls)
     tag = run.choose([('normal', True)] + [(e, True) for e in PARSE_RAISES], f'{cls.__name__}.parse')
     if tag != 'normal':
